@@ -67,8 +67,8 @@ def arg_templates(sh):
         T.append(("star", [(None, "3usize", None, "usize"), (None, f[0], None, "ref")]))
     if sh.n >= 2:
         T.append(("reversed", [(None, a, None, "ref") for a in reversed(f)]))
-        if not getattr(sh, "raw", False):
-            T.append(("shadow", [(f[0], f[1], None, "ref")]))
+        # (an alias named like a field hides the field; for a raw field `r#type` the alias is written `type`, as format_args! has it)
+        T.append(("shadow", [(lname(f[0]), f[1], None, "ref")]))
     return T
 
 
@@ -85,7 +85,7 @@ def placeholders(sh, tname, targs, quick):
                 refs.append((a, kind))
         aliases = {a for a, _, _, _ in targs if a}
         for n in sh.names:
-            if n not in aliases:
+            if lname(n) not in aliases:
                 refs.append((lname(n), "ref"))    # the field itself, captured by name
     for rf, kind in refs:
         for sp in specs:
